@@ -68,6 +68,25 @@ const HOSTILE: &[&str] = &[
     "Abc<Def>",
 ];
 
+/// strings with the code points `impl Debug for str` writes as `\u{..}` beyond ASCII (U+007F, C1
+/// controls, U+00A0, U+00AD, combining marks, U+1680, U+2000–U+200F, U+2028–U+202F, U+205F–U+206F,
+/// U+3000, U+FEFF) next to special characters: placed inside arrays and maps, where strings are
+/// printed with `{:?}` before being escaped
+const DEBUG_CPS: &[&str] = &[
+    "a\u{a0}<b",
+    "x\u{ad}'y",
+    "e\u{301}>\"o\u{308}\u{36f}",
+    "\u{1680}<ogham",
+    "q\u{2003}\u{200b}&\u{200f}",
+    "l\u{2028}<\u{2029}\u{202f}",
+    "m\u{205f}\u{2060}>\u{206f}",
+    "w\u{3000}'\u{2000}",
+    "\u{feff}<bom",
+    "c\u{7f}\u{85}\u{1}<\u{9f}",
+    "\u{a0}",
+    "\u{300}",
+];
+
 /// literal template text: free of `< > " '` (and of `{`, `[[`, `]]`)
 const LITS: &[&str] = &["L:", " + ", "·日·", "|x|", "a=b;", "\n", "¿ ", "%)(", "T-"];
 
@@ -105,21 +124,33 @@ fn hostile_perm(rng: &mut Rng) -> String {
 
 fn make_context(rng: &mut Rng, idx: usize) -> BTreeMap<String, Value> {
     let pick = |rng: &mut Rng| -> String {
-        if rng.chance(1, 3) { hostile_perm(rng) } else { HOSTILE[rng.below(HOSTILE.len())].to_string() }
+        if rng.chance(1, 8) {
+            DEBUG_CPS[rng.below(DEBUG_CPS.len())].to_string()
+        } else if rng.chance(1, 3) {
+            hostile_perm(rng)
+        } else {
+            HOSTILE[rng.below(HOSTILE.len())].to_string()
+        }
     };
     let mut m = BTreeMap::new();
     let s1 = if idx == 0 { "<>&\"'".to_string() } else { pick(rng) };
     m.insert("s1".to_string(), Value::from(s1));
     m.insert("s2".to_string(), Value::from(pick(rng)));
-    let arr: Vec<Value> = (0..2 + rng.below(2)).map(|_| Value::from(pick(rng))).collect();
+    let mut arr: Vec<Value> = (0..2 + rng.below(2)).map(|_| Value::from(pick(rng))).collect();
+    // directed: `{:?}`-escaped code points inside the array / maps of every context
+    let dbg = |j: usize| DEBUG_CPS[(idx * 5 + j) % DEBUG_CPS.len()];
+    arr.push(Value::from(dbg(0)));
+    arr.push(Value::from(dbg(1)));
     m.insert("arr".to_string(), Value::from(arr));
     let mut mp = tera::Map::new();
     mp.insert("k".into(), Value::from(pick(rng)));
+    mp.insert("u".into(), Value::from(dbg(2)));
+    mp.insert(dbg(3).to_string().into(), Value::from("v"));
     mp.insert("q\"<".into(), Value::from(pick(rng)));
     m.insert("m".to_string(), Value::from(mp));
     let mut inner = tera::Map::new();
     inner.insert("k".into(), Value::from(pick(rng)));
-    inner.insert("list".into(), Value::from(vec![Value::from(pick(rng)), Value::from(pick(rng))]));
+    inner.insert("list".into(), Value::from(vec![Value::from(pick(rng)), Value::from(pick(rng)), Value::from(dbg(4))]));
     let mut nest = tera::Map::new();
     nest.insert("inner".into(), Value::from(inner));
     m.insert("nest".to_string(), Value::from(nest));
